@@ -6,9 +6,12 @@
    prepare_stmt.go; [step s t c] = goroutine t performs its next action, the driver answering c;
    [run s sched] follows ANY list of (goroutine, driver answer): all theorems quantify over every
    program list (any number of goroutines and operations) and every schedule.
-   [reach progs s] := exists sched, run (init progs) sched = Some s. *)
+   The state carries one constant flag [s_guard]: false = prepare_stmt.go as it is ([init]),
+   true = the proposed patch (guarded deletes, [init_g true]).
+   [reach progs s] := exists g sched, run (init_g g progs) sched = Some s: the positive theorems
+   hold for both variants; the refutations are schedules of [init] (the code as it is). *)
 From Verif Require Import Base C14_Model C14_Check C14_Proofs C14_Proofs2 C14_Proofs3 C14_Proofs4
-  C14_Proofs5 C14_Proofs6 C14_Proofs7 C14_Proofs8 C14_Proofs9.
+  C14_Proofs5 C14_Proofs6 C14_Proofs7 C14_Proofs8 C14_Proofs9 C14_Proofs10.
 
 (* ---- 1. no goroutine deadlocks ---------------------------------------------------------- *)
 (* In every reachable state in which some goroutine has not finished, some goroutine can take
@@ -129,6 +132,19 @@ Theorem c14_leak_free_partial : forall progs s,
 Proof. exact leak_free_partial. Qed.
 Print Assumptions c14_leak_free_partial.
 
+(* With the proposed patch (delete(Stmts, query) only if the slot still holds the entry this
+   call created, resp. the entry carrying the statement this call used) the clause holds outright:
+   for every program and every schedule, incl. failed Prepares and ErrBadConn. *)
+Theorem c14_closed_eventually_patched : forall progs sched s st q,
+  run (init_g true progs) sched = Some s -> In (st, q, false) (s_prep s) -> safe s st.
+Proof. exact closed_eventually_patched. Qed.
+Print Assumptions c14_closed_eventually_patched.
+
+Theorem c14_leak_free_patched : forall progs sched s,
+  run (init_g true progs) sched = Some s -> all_done s = true -> s_map s = None -> leaked s = [].
+Proof. exact leak_free_patched. Qed.
+Print Assumptions c14_leak_free_patched.
+
 (* ---- 5. transparency ------------------------------------------------------------------------ *)
 (* the statement a goroutine executes at the driver was prepared for the text it asked for *)
 Theorem c14_right_statement : forall progs s t th st,
@@ -175,6 +191,13 @@ Example c14_leak_free_partial_instance :
   exists s, run (init w6_progs) w6_sched = Some s /\ all_done s = true /\ s_stolen s = false
             /\ s_map s = None /\ s_prep s = [(0, 0, false)] /\ s_fails s = [0] /\ s_evicts s = [0].
 Proof. exact w6_instance. Qed.
+
+(* the three refutation schedules, run on the patched variant, end with nothing open *)
+Example c14_witnesses_patched :
+  ends_clean true w1_progs (w1_sched ++ tau 6 2) = true /\
+  ends_clean true w1_progs (w2_sched ++ tau 5 2) = true /\
+  ends_clean true w4_progs (w4_sched ++ tau 3 2) = true.
+Proof. exact witnesses_patched. Qed.
 
 (* the hypotheses of c14_transparent_partial are met by two goroutines racing for one text:
    one Prepare call, both operations ROk *)
